@@ -606,14 +606,22 @@ def run(ctx):
     if have_model:
         hdr = ctx.header(["Model"])
         t2 = time.time()
-        bad, log = ctx.eval_cases(hdr, "case", "check_case", terms, shard=40)
-        timing['coq_check'] = round(time.time() - t2, 1)
-        t3 = time.time()
-        lab, log2 = coq_map_cases("C10", hdr, "case_labels", terms, ctx.rundir)
-        timing['coq_labels'] = round(time.time() - t3, 1)
+        # one vm_compute pass: bit 1 of case_labels is check_case (model = implementation), the other
+        # bits are the defect classes of the abstract case
+        shard = 40
+        lab, log2 = coq_map_cases("C10", hdr, "case_labels", terms, ctx.rundir, shard=shard)
+        timing['coq'] = round(time.time() - t2, 1)
+        ctx.corr["cases"] += len(terms)
+        ctx.corr["shards"] += (len(terms) + shard - 1) // shard
         if lab is None:
-            ctx.obligation("labels", "harness", False, log2[-600:])
-            lab = [0] * len(terms)
+            ctx.obligation("correspondence:cases", "correspondence", False, log2[-900:])
+            bad = None
+            lab = [1] * len(terms)
+        else:
+            bad = [j for j, v in enumerate(lab) if not v & 1]
+            ctx.corr["disagreements"] += len(bad)
+            ctx.obligation("correspondence:cases", "correspondence", not bad,
+                           "%d/%d cases disagree" % (len(bad), len(terms)) if bad else "%d cases agree" % len(terms))
         for j, i in enumerate(idx):
             labels[i] = lab[j]
     else:
@@ -649,10 +657,6 @@ def run(ctx):
             ctx.oracle["failures"] += 1
             cl = slice_classes(c) if slice_related else classes
             ctx.failure("oracle", msg, c, classes=cl, impl={k: v for k, v in r.items() if k != "dump"})
-        elif have_model and lab is not None and i in labels:
-            # the implementation satisfies the property on this case; if the model claims a deviation the
-            # model is not faithful -> reported through the correspondence below (bit 1 = check_case)
-            pass
         if i in bad_set:
             ctx.failure("correspondence", "model and implementation disagree on a %s case" % c["kind"], c,
                         impl={k: v for k, v in r.items() if k != "dump"},
